@@ -59,6 +59,12 @@ func (c *InternalCron) ScheduleEvent(ctx *core.Context, se *ScheduledEvent) erro
 		return err
 	}
 
+	// The job belongs to the location the context names now, not to
+	// whatever the caller's context names when the job fires: give the
+	// job a context of its own.
+	jobId := eventJobId(ctx, se.Id)
+	ctx = ctx.SubContext()
+
 	fn := func(t time.Time) error {
 		loc := ctx.Location()
 		if loc == nil {
@@ -71,7 +77,7 @@ func (c *InternalCron) ScheduleEvent(ctx *core.Context, se *ScheduledEvent) erro
 		core.Log(core.DEBUG|CRON, ctx, "InternalCron.ScheduleEvent", "findrules", *fr)
 		return nil
 	}
-	return c.Cron.Add(ctx, eventJobId(ctx, se.Id), sched, fn)
+	return c.Cron.Add(ctx, jobId, sched, fn)
 }
 
 func (c *InternalCron) Schedule(ctx *core.Context, sw *ScheduledWork) error {
